@@ -165,13 +165,13 @@ Proof. split; vm_compute; reflexivity. Qed.
 
 (* ---------- the hand-set cuts of the guard prefixes (review round) ----------
    Every guard translated as a PREFIX ("until_stmt" in gen_*.json): the statements before the cut contain no assignment, compound
-   assignment, ++ or -- at all, and call nothing but the size / position queries below, the VersionKeeper check, the key iterator's
+   assignment, ++ or -- at all, and call nothing but the size / position queries below, the VersionKeeper checks (Check, CheckKeyIterator), the key iterator's
    operator-> and the assertion handler.  (Exception constructors are not calls in this listing.)  So a guard's `Exn` really is raised
    before the function wrote anything; what is NOT proved here is that the listed queries are pure (they are const members). *)
-Definition prefix_queries : list string := ["GetCount"; "Check"; "pvGetIndex"; "pvGetRaws"; "operator->"; "__assert_fail"].
+Definition prefix_queries : list string := ["GetCount"; "Check"; "CheckKeyIterator"; "pvGetIndex"; "pvGetRaws"; "operator->"; "operator HashDerivedIterator" (* KeyIterator -> ConstKeyIterator conversion, a copy *); "__assert_fail"].
 Definition prefix_row_ok (r : string * string * nat * nat * nat * list string) : bool :=
   match r with (_, _, cut, total, writes, calls) =>
     Nat.eqb writes 0 && Nat.leb cut total && forallb (fun c => existsb (String.eqb c) prefix_queries) calls end.
-Lemma guard_prefixes_write_free : forallb prefix_row_ok guard_prefix_facts = true /\ Nat.leb 18 (length guard_prefix_facts) = true.
+Lemma guard_prefixes_write_free : forallb prefix_row_ok guard_prefix_facts = true /\ Nat.leb 19 (length guard_prefix_facts) = true.
 Proof. split; vm_compute; reflexivity. Qed.
 
